@@ -20,6 +20,24 @@ from gym_gridverse.utils.raytracing import cached_compute_rays_fancy
 from vt import impl, wire
 
 ACTS = list(Action)
+DIRECT = False      # True: bind the registered functions by hand (functools.partial), bypassing the component `factory` functions
+
+
+class _F:
+    def __init__(self, mod, reg):
+        self.mod, self.reg = mod, reg
+
+    def factory(self, name, **kw):
+        if DIRECT:
+            import inspect
+            from functools import partial
+            f = getattr(self.mod, self.reg)[name]
+            return partial(f, **{k: v for k, v in kw.items() if k in inspect.signature(f).parameters})   # unaccepted parameters are ignored
+        return self.mod.factory(name, **kw)
+
+
+_rewf, _termf, _obsf, _resf, _trf = (_F(rewf, 'reward_function_registry'), _F(termf, 'terminating_function_registry'),
+                                     _F(obsf, 'observation_function_registry'), _F(resf, 'reset_function_registry'), _F(trf, 'transition_function_registry'))
 
 # ---------------------------------------------------------------- rewards
 R_TAGS = {'overlap': 0, 'living_reward': 1, 'reach_exit': 2, 'bump_moving_obstacle': 3, 'proportional_to_distance': 4,
@@ -37,13 +55,13 @@ DFUN = {'manhattan': 0, 'euclidean': 1}
 
 def build_reward(d):
     if d['name'] == 'reduce_sum':
-        return rewf.factory('reduce_sum', reward_functions=[build_reward(p) for p in d['parts']])
+        return _rewf.factory('reduce_sum', reward_functions=[build_reward(p) for p in d['parts']])
     kw = dict(zip(R_PARAMS[d['name']], d['params']))
     if d['name'] in R_HAS_TY:
         kw['object_type'] = grid_object_registry[d['ty']]
     if d['name'] in R_HAS_D:
         kw['distance_function'] = distance_function_factory(d['d'])
-    return rewf.factory(d['name'], **kw)
+    return _rewf.factory(d['name'], **kw)
 
 
 def enc_reward(d):
@@ -115,11 +133,11 @@ T_TAGS = {'overlap': 0, 'reach_exit': 1, 'bump_moving_obstacle': 2, 'bump_into_w
 
 def build_term(d):
     if d['name'] in ('reduce_any', 'reduce_all'):
-        return termf.factory(d['name'], terminating_functions=[build_term(p) for p in d['parts']])
+        return _termf.factory(d['name'], terminating_functions=[build_term(p) for p in d['parts']])
     kw = {}
     if d['name'] == 'overlap':
         kw['object_type'] = grid_object_registry[d['ty']]
-    return termf.factory(d['name'], **kw)
+    return _termf.factory(d['name'], **kw)
 
 
 def enc_term(d):
@@ -152,7 +170,7 @@ def area_of(a):
 
 
 def build_obs(d):
-    return obsf.factory(d['name'], area=area_of(d['area']))
+    return _obsf.factory(d['name'], area=area_of(d['area']))
 
 
 def rays_for(d):
@@ -195,7 +213,7 @@ def build_reset(d):
         kw['colors'] = set(Color(c) for c in d['colors'])
     if 'object_type' in d:
         kw['object_type'] = grid_object_registry[d['object_type']]
-    return resf.factory(n, **kw)
+    return _resf.factory(n, **kw)
 
 
 def enc_reset(d):
@@ -243,7 +261,7 @@ def build_env(d):
     types = [grid_object_registry[t] for t in d['state_types']]
     otypes = [grid_object_registry[t] for t in d['obs_types']]
     reset = build_reset(d['reset'])
-    trans = trf.factory('chain', transition_functions=[trf.factory(impl.TNAMES[n]) for n in d['trans']])
+    trans = _trf.factory('chain', transition_functions=[_trf.factory(impl.TNAMES[n]) for n in d['trans']])
     obs = build_obs(d['obs'])
     a = area_of(d['obs']['area'])
     return GridWorld(
